@@ -130,6 +130,13 @@ def enum_cases(tier):
     for nf in range(1, (12 if tier == "thorough" else 6) + 1):
         for supply in ([], ["edge_node"]):
             yield {"conv": "ugrid", "nf": nf, "supply": supply}
+    # every pair of CF unit spellings for the two axes, either variable first, on a non-square grid
+    for conv in ("cf1d", "cf2d"):
+        for a in range(6):
+            for b in range(6):
+                for lon_first in (False, True):
+                    yield {"conv": conv, "nj": 2, "ni": 3, "detect": f"spelling:{a}:{b}",
+                           "lon_first": lon_first}
 
 
 def regular_spec(case):
@@ -162,6 +169,14 @@ def regular_spec(case):
                     "coords_as": "coord", "bounds_as": "var", "detect": "units"}
         else:
             geom = {"nodes": nodes, "coords_as": "coord"}
+    if case.get("detect"):
+        geom["detect"] = case["detect"]
+        geom["lon_first"] = case.get("lon_first", False)
+        if conv == "cf1d":
+            geom["names"] = S.CF1D_NAMES[2]       # coordinate names that say nothing (yc, xc)
+            geom["coords_as"] = "var"
+        else:
+            geom["names"] = S.CF2D_NAMES[2]
     return {"conv": conv, "geom": geom, "extra": {}, "vars": [], "mode": "raw"}
 
 
@@ -240,6 +255,6 @@ def large_strategy(tier):
     return large_cases()
 
 
-SUBS = [Sub("datasets", strategy, check_spec, quick=150, thorough=1000),
+SUBS = [Sub("datasets", strategy, check_spec, quick=300, thorough=1500),
         Sub("large_grids", large_strategy, check_large, quick=60, thorough=600)]
 ENUMS = [Enum("all_shapes", enum_cases, check_enum, exhaustive_in=("quick", "thorough"))]
